@@ -277,7 +277,13 @@ class OrderManager:
 
         # For the base amount we truncate instead of rounding to avoid exceeding available liquidity.
         if (base_amount := balance_updates.get(pair.base_symbol)) is not None:
-            balance_updates[pair.base_symbol] = core_helpers.truncate_decimal(base_amount, pair_info.base_precision)
+            truncated_base_amount = core_helpers.truncate_decimal(base_amount, pair_info.base_precision)
+            # If the base amount gets truncated the quote amount has to be scaled down too. Otherwise the price for
+            # the fill ends up being worse than the one that was calculated (and maybe worse than a limit price).
+            quote_amount = balance_updates.get(pair.quote_symbol)
+            if quote_amount is not None and truncated_base_amount != base_amount:
+                balance_updates[pair.quote_symbol] = quote_amount * truncated_base_amount / base_amount
+            balance_updates[pair.base_symbol] = truncated_base_amount
 
         # For the quote amount we simply round.
         if (quote_amount := balance_updates.get(pair.quote_symbol)) is not None:
